@@ -64,6 +64,9 @@ def faults_for(case):
         # two stages cloned from a template with a parameter; only one clone (or only the template) gets a value
         out += [{"fault": "missing_value_clone", "which": w} for w in ("second", "first", "template_only_ok")]
     if kind in ("MS", "SS", "DC"):
+        # a sub-stage with dynamics but without a method under a parent that has one: nothing may be inherited silently
+        out += [{"fault": "substage_no_method", "which": w} for w in ("parent_with_dynamics", "bare_parent", "second_of_two")]
+    if kind in ("MS", "SS", "DC"):
         # a constraint on the (method-less) master that depends on the master's time: it cannot be placed
         out += [{"fault": "master_path_constraint"}]
     if kind == "Spline":
@@ -87,7 +90,7 @@ def ispec_coq(case, f):
     if fl == "missing_value_clone":
         # the multi-stage OCP has one parameter instance per clone
         val = {"second": [True, False], "first": [False, True], "template_only_ok": [True, True]}[f["which"]]
-    meth = "None" if fl == "no_method" else "(Some %s)" % {"MS": "KMS", "SS": "KSS", "DC": "KDC", "Spline": "KSpline"}[kind]
+    meth = "None" if fl in ("no_method", "substage_no_method") else "(Some %s)" % {"MS": "KMS", "SS": "KSS", "DC": "KDC", "Spline": "KSpline"}[kind]
     nobj = len(case["objective"])
     nalg = len(case.get("alg", [])) + (1 if fl in ("alg_explicit", "alg_eq_no_var", "discrete_alg") else 0)
     return "(mkI %s %s true %s %s %s %s %s %s %s %s %s %d%%nat %s %s %d%%nat %s)" % (
@@ -160,6 +163,30 @@ def worker(args):
                     st.subject_to(st.at_t0(x_) == 0)
                     st.method(CS.make_method(dict(c["method"], grid={"class": "Uniform"}), rockit, c))
                     ocp.subject_to(st.at_tf(x_) <= 3 - ocp.t)
+                    ocp.solver("ipopt", {"ipopt.print_level": 0, "print_time": False})
+                    out["phase"] = "solve"
+                    ocp.solve()
+                    out["raised"] = False
+                    raise Reached()
+                if fl == "substage_no_method":
+                    # the parent stage has a method (and dynamics of its own in one variant), a sub-stage with dynamics has none
+                    ocp = rockit.Ocp(t0=0, T=1)
+                    if f["which"] != "bare_parent":
+                        y_ = ocp.state(); w_ = ocp.control()
+                        ocp.set_der(y_, w_)
+                        ocp.add_objective(ocp.integral(w_ ** 2))
+                        ocp.subject_to(ocp.at_t0(y_) == 0)
+                    ocp.method(CS.make_method(dict(c["method"], grid={"class": "Uniform"}), rockit, c))
+                    sts = []
+                    for q in range(2 if f["which"] == "second_of_two" else 1):
+                        st = ocp.stage(t0=q, T=1)
+                        x_ = st.state(); u_ = st.control()
+                        st.set_der(x_, u_)
+                        st.add_objective(st.integral(u_ ** 2) - st.at_tf(x_))
+                        st.subject_to(st.at_t0(x_) == 0)
+                        sts.append(st)
+                    if f["which"] == "second_of_two":
+                        sts[0].method(CS.make_method(dict(c["method"], grid={"class": "Uniform"}), rockit, c))
                     ocp.solver("ipopt", {"ipopt.print_level": 0, "print_time": False})
                     out["phase"] = "solve"
                     ocp.solve()
